@@ -31,15 +31,18 @@ def ts_int(s: str) -> int:
     return int((dt.strptime(s, "%y-%m-%dT%H:%M:%S") - T0).total_seconds() // 60)
 
 
-# entry content is a function of the timestamp: odd = fault, even = the restore of the fault before it
-_KINDS = [("04", "03", "04", "04:111111"), ("06", "06", "02", "03:123456"), ("05", "00", "00", None)]
+# entry content is a function of the timestamp: odd = fault, even = the restore of the fault before it; every
+# fault/restore pair has a device of its own (spec/FaultLog.tla IsFault / ActiveOf rely on exactly this: a fault is
+# outstanding iff its restore - the next timestamp - is not held; no two pairs share a (type, class, device, domain))
+_KINDS = [("04", "03", "04", "04"), ("06", "06", "02", "03"), ("05", "00", "00", "07")]
 
 
 def entry_payload(idx: int, n: int) -> str:
     from ramses_tx.address import dev_id_to_hex_id
-    ftype, domain, dclass, dev = _KINDS[((n + 1) // 2) % 3]
+    pair = (n + 1) // 2
+    ftype, domain, dclass, dev_type = _KINDS[pair % 3]
     state = "00" if n % 2 else "40"
-    dev_hex = dev_id_to_hex_id(dev) if dev else "000000"
+    dev_hex = dev_id_to_hex_id(f"{dev_type}:{100000 + pair:06d}")
     return "".join(("00", state, f"{idx:02X}", "B0", ftype, domain, dclass, "0000",
                     hex_from_dts(ts_str(n)), "FFFF7000", dev_hex))
 
@@ -197,15 +200,21 @@ class Runner:
             view = [[int(i), ts_int(e.timestamp)] for i, e in fl.faultlog.items()]
         except Exception as err:  # noqa: BLE001
             exc = f"faultlog:{type(err).__name__}"
-        le = -1
+        # the other three public projections of the view, as shown (timestamps; 0 / [] = None): judged by TLC
+        # (FaultLogTrace: ViewsAgree) against the entries the `faultlog` mapping shows at the same instant
+        le, lf, af = -1, -1, []
         for name in ("latest_event", "latest_fault", "active_faults"):
             try:
                 v = getattr(fl, name)
                 if name == "latest_event":
                     le = ts_int(v.timestamp) if v is not None else 0
+                elif name == "latest_fault":
+                    lf = ts_int(v.timestamp) if v is not None else 0
+                else:
+                    af = [ts_int(e.timestamp) for e in v] if v is not None else []
             except Exception as err:  # noqa: BLE001
                 exc = exc or f"{name}:{type(err).__name__}"
-        return {"view": view, "exc": exc, "latest": le,
+        return {"view": view, "exc": exc, "latest": le, "le": le, "lf": lf, "af": af,
                 "imap": [[int(i), ts_int(t)] for i, t in fl._map.items()],
                 "ilog": sorted(ts_int(t) for t in fl._log)}
 
@@ -240,6 +249,176 @@ def run_history(events, depth: int, dispatch: bool = True) -> list[dict]:
 
 
 # --------------------------------------------------------------------------------------
+# two callers: get_faultlog() calls that overlap on one FaultLog.  The calls run as tasks of a real asyncio loop
+# (whatever the code awaits besides its own request - a lock, an event, the other call - needs one); the stub
+# gateway hands each request to the harness, which answers the request of the reader the event names.
+# Events of the second caller: ("r2start", start, limit) ("r2step", pos, 0) ("r2end", 0, 0)  (FaultLogTrace: rd2).
+
+
+class _LoopGwy:
+    def __init__(self) -> None:
+        self.pending: list[tuple] = []  # (reader number, cmd, future) in the order asked
+
+    async def async_send_cmd(self, cmd, **kw):
+        import asyncio
+        fut = asyncio.get_running_loop().create_future()
+        name = asyncio.current_task().get_name()
+        self.pending.append((int(name[1:]) if name[:1] == "r" and name[1:].isdigit() else 0, cmd, fut))
+        return await fut
+
+
+async def _loop_history(events, depth: int, dispatch: bool = True) -> list[dict]:
+    import asyncio
+    loop = asyncio.get_running_loop()
+    probe = Runner(depth, dispatch)  # the real FaultLog, the simulated controller and observe()
+    gwy = _LoopGwy()
+    probe.fl._gwy = gwy
+    fl = probe.fl
+    tasks: dict[int, Any] = {1: None, 2: None}
+    out: list[dict] = []
+
+    async def drain() -> None:
+        for _ in range(8):
+            await asyncio.sleep(0)
+
+    def answer(req) -> int:
+        """The controller answers this request; the dispatcher's delivery comes first, then the caller resumes."""
+        gwy.pending.remove(req)
+        idx = int(req[1].payload[4:6], 16)
+        n = probe._at(idx)
+        ridx = idx if n is not None else 0  # a real controller answers a null entry with idx 00
+        if dispatch:
+            fl.handle_msg(Message(mk_pkt(RP, ridx, n)))
+        req[2].set_result(mk_pkt(RP, ridx, n))
+        return n or 0
+
+    try:
+        for ev in events:
+            k, a, b = ev
+            ts, note, uexc = 0, "", ""
+            rdr = 2 if k.startswith("r2") else 1
+            kk = k.replace("r2", "r")
+            try:
+                if kk == "rstart":
+                    if tasks[rdr] is not None:
+                        note = "reader-busy"
+                    else:
+                        tasks[rdr] = loop.create_task(fl.get_faultlog(start=a, limit=b), name=f"r{rdr}")
+                elif kk == "rstep":
+                    t = tasks[rdr]
+                    mine = [r for r in gwy.pending if r[0] == rdr]
+                    if t is None:
+                        note = "no-pending-rq"
+                    elif t.done():
+                        note = "code:ended-early"  # judged by the read-through clause on the view it leaves (J20)
+                    elif not mine:
+                        note = "code:not-asking"  # the call waits for something that is not a reply to a request of its own
+                    else:
+                        if int(mine[0][1].payload[4:6], 16) != a:
+                            note = "code:other-idx"
+                        ts = answer(mine[0])
+                elif kk == "rend":
+                    t = tasks[rdr]
+                    if t is not None and not t.done():
+                        # the call has not returned although every request the plan gave it was answered: answer whatever
+                        # is asked (its own requests first, then the other caller's) until it returns
+                        note = "code:ran-late"
+                        for _ in range(160):
+                            await drain()
+                            if t.done() or not gwy.pending:
+                                break
+                            mine = [r for r in gwy.pending if r[0] == rdr]
+                            answer((mine or gwy.pending)[0])
+                    if t is None or not t.done():
+                        note = "not-done"
+                    else:
+                        tasks[rdr] = None
+                        if t.exception() is not None:
+                            uexc = f"update:{type(t.exception()).__name__}"
+                else:
+                    ts, note, _ = probe._apply(ev)  # new / reply / again / clear: as in the one-caller driver
+            except Exception as err:  # noqa: BLE001  an exception escaping handle_msg
+                uexc = f"update:{type(err).__name__}"
+            await drain()
+            for r, t in tasks.items():  # a call that raised (anything at all: reading never raises)
+                if t is not None and t.done() and not t.cancelled() and t.exception() is not None and not uexc:
+                    uexc = f"update:{type(t.exception()).__name__}"
+            o = probe.observe()
+            if uexc and not o["exc"]:
+                o["exc"] = uexc
+            o["aborted"] = bool(uexc)
+            o.update(k=k, a=a, b=b, ts=ts, note=note,
+                     running=sum(1 for t in tasks.values() if t is not None and not t.done()),
+                     done=sum(1 for t in tasks.values() if t is not None and t.done()))
+            out.append(o)
+            if uexc:
+                break
+    finally:
+        for t in tasks.values():
+            if t is not None and not t.done():
+                t.cancel()
+        await drain()
+    return out
+
+
+def run_histories_loop(hists, depth: int, dispatch: bool = True) -> list[list[dict]]:
+    """Each history on a fresh real FaultLog; the get_faultlog calls run as tasks of one real asyncio loop."""
+    import asyncio
+    loop = asyncio.new_event_loop()
+    loop.set_exception_handler(lambda lp, ctx: None)
+    try:
+        return [loop.run_until_complete(_loop_history([tuple(e) for e in h], depth, dispatch)) for h in hists]
+    finally:
+        loop.close()
+
+
+def two_caller_histories(depth: int, prefixes, readers, env=()) -> list[tuple]:
+    """Every interleaving of two get_faultlog calls (first caller A, second caller B, each (start, limit) from `readers`)
+    after each prefix of `new` events: B starts before A's first request is answered / between two of A's replies /
+    after A has returned; every order of their replies.  `env`: events one of which may also occur once, at any
+    point while a call is under way (a `new` then makes the calls under way not judged by c: rd.dirty).
+    A call's last reply and its return are one unit (the model's "done" is only the observation point of c)."""
+    out: list[tuple] = []
+
+    def ended(n: int, pos: int, hi: int) -> bool:
+        return pos >= n or pos + 1 >= hi
+
+    def go(hist: tuple, n: int, ra, rb, a_spec, b_spec, env_left: bool) -> None:
+        # ra / rb: None (not started), (pos, hi) (under way), "ret"
+        if ra == "ret" and rb == "ret":
+            out.append(hist)
+            return
+        if ra is None:
+            go(hist + (("rstart", a_spec[0], a_spec[1]),), n, (a_spec[0], min(a_spec[0] + a_spec[1], 64)), rb, a_spec, b_spec, env_left)
+            return
+        if ra != "ret":
+            pos, hi = ra
+            if ended(n, pos, hi):
+                go(hist + (("rstep", pos, 0), ("rend", 0, 0)), n, "ret", rb, a_spec, b_spec, env_left)
+            else:
+                go(hist + (("rstep", pos, 0),), n, (pos + 1, hi), rb, a_spec, b_spec, env_left)
+        if rb is None:
+            go(hist + (("r2start", b_spec[0], b_spec[1]),), n, ra, (b_spec[0], min(b_spec[0] + b_spec[1], 64)), a_spec, b_spec, env_left)
+        elif rb != "ret":
+            pos, hi = rb
+            if ended(n, pos, hi):
+                go(hist + (("r2step", pos, 0), ("r2end", 0, 0)), n, ra, "ret", a_spec, b_spec, env_left)
+            else:
+                go(hist + (("r2step", pos, 0),), n, ra, (pos + 1, hi), a_spec, b_spec, env_left)
+        if env_left:
+            for e in env:
+                go(hist + (tuple(e),), min(n + 1, depth) if e[0] == "new" else n, ra, rb, a_spec, b_spec, False)
+
+    for pre in prefixes:
+        hist = tuple(("new", d, 0) for d in pre)
+        n = min(len(pre), depth)
+        for a_spec in readers:
+            for b_spec in readers:
+                go(hist, n, None, None, a_spec, b_spec, bool(env))
+    return out
+
+
+# --------------------------------------------------------------------------------------
 # keys: canonical class of the step at which a clause first trips (never counts / random data)
 
 
@@ -254,7 +433,7 @@ def _incoming(o: dict) -> tuple[int, int | None] | None:
         return (0, ts or None)
     if k == "clear":
         return (0, None) if a == 1 else None
-    if k == "rstep":
+    if k in ("rstep", "r2step"):
         return (a, ts or None)
     return None
 
@@ -287,6 +466,14 @@ def key_for(obs: list[dict], line: int, clause: str, clog_after: list[int] | Non
     inc = _incoming(o)
     if clause == "Raises":
         return f"C19b-Raises:{o['exc']}"
+    if clause == "Views":
+        # which projection(s) contradict the entries the faultlog mapping shows (naming only; the verdict is TLC's)
+        held = {t for _, t in o["view"]}
+        faults = sorted((t for t in held if t % 2), reverse=True)
+        bad = [name for name, got, want in (
+            ("latest_event", o["le"], max(held, default=0)), ("latest_fault", o["lf"], faults[0] if faults else 0),
+            ("active_faults", o["af"], [t for t in faults if t + 1 not in held])) if got != want]
+        return "C19a-Views:" + ("+".join(bad) or "other")
     if clause == "AnnounceShift":
         cls = "empty-view" if not pre else ("top-slot-known" if 0 in pre else "top-slot-unknown")
         return f"C19d-AnnounceShift:{cls}"
